@@ -18,6 +18,12 @@ func VerifCloseRace() {
 	c, e := vCluSetup()
 	known := verifBool()
 	reg := vMkRegion(0, 1, nil, nil)
+	if verifParam("ONLINE") == 1 {
+		// the region is cached and online; the script may make it fail and be replaced
+		known = false
+		c.regions.put(reg)
+		reg.SetClient(c.clients.put("rs0:1", reg, func() hrpc.RegionClient { return e.factory("rs0:1", "", 0, 0, "", 0, nil, nil, nil) }))
+	}
 	if known {
 		// the region is cached and in the middle of an outage, its establisher running
 		c.regions.put(reg)
@@ -45,7 +51,9 @@ func VerifCloseRace() {
 	verifAssert(r1.done, "a request in flight returns")
 	verifAssert(r1.err == nil || r1.err == ErrClientClosed, "it succeeds or reports that the client is closed")
 	for _, rc := range e.clients {
-		verifAssert(rc.closed > 0, "every regionserver connection the client holds is closed")
+		// a region client that failed by itself (dial failure, server error) has closed its
+		// own connection, as region.(*client).fail does
+		verifAssert(rc.closed > 0 || rc.dead, "every regionserver connection the client holds is closed")
 	}
 	verifAssert(verifGoroutines() == 0, "no goroutine is left behind")
 	// later calls fail promptly
@@ -60,7 +68,7 @@ func VerifCloseRace() {
 	verifAssert(!ok && res[0].Error == ErrClientClosed, "a batch after Close returns the client-closed error")
 	verifQuiesce()
 	for _, rc := range e.clients {
-		verifAssert(rc.closed > 0, "no connection is opened after Close")
+		verifAssert(rc.closed > 0 || rc.dead, "no connection is opened after Close")
 	}
 	verifAssert(verifGoroutines() == 0, "no goroutine is left behind by calls after Close")
 	sleepAndIncreaseBackoffOverride = nil
